@@ -57,6 +57,7 @@ type Op struct {
 	Ap     bool     `json:",omitempty"` // fault ops: the write was applied although the call returned an error; crashinflush: the batch was written
 	Stg    int      `json:",omitempty"` // saveweightf: 0 = the leader-weight write fails, 1 = the region-weight write
 	Tmo    bool     `json:",omitempty"` // budget: the injected LoadRange failures look like time-outs ("context deadline exceeded") instead of "too large"
+	GoViol string   `json:",omitempty"` // set by the driver: what a Go-side check of this very step found (reported by checkGo)
 	Cached []string `json:",omitempty"` // loadwarm: the warm cache before the load (filled when run)
 	Par    int      `json:",omitempty"` // flush only: run it in its own goroutine and overlap the next Par ops with it
 }
@@ -260,6 +261,27 @@ func (w *world) openRS() {
 	}
 }
 
+type storeRec struct {
+	found  bool
+	lw, rw float64
+}
+
+// storeRec: what a full load of the stores returns for one id right now (no LoadRange budget, no fault)
+func (w *world) storeRec(id uint64) storeRec {
+	b, a := w.base.budget, w.base.armed
+	w.base.budget, w.base.armed = -1, 0
+	defer func() { w.base.budget, w.base.armed = b, a }()
+	var out storeRec
+	if err := w.st.LoadStores(func(s *core.StoreInfo) {
+		if s.GetID() == id {
+			out = storeRec{true, s.GetLeaderWeight(), s.GetRegionWeight()}
+		}
+	}); err != nil {
+		panic(err)
+	}
+	return out
+}
+
 func status(err error) string {
 	if err != nil {
 		return "RFailed"
@@ -400,6 +422,12 @@ func (w *world) exec(o *Op) string {
 	case "budget":
 		w.base.budget, w.base.tmo = o.P, o.Tmo
 	case "savestoref", "delstoref", "saveweightf", "saveregionf", "delregionf":
+		// a DeleteStore whose removal of the record fails WITHOUT having been applied has not deleted the store: a full load
+		// must return it as before, weights included (the weight keys DeleteStore removed first have to be put back)
+		var before storeRec
+		if o.K == "delstoref" && !o.Ap {
+			before = w.storeRec(o.ID)
+		}
 		w.base.armed, w.base.after = 1, o.Ap
 		var err error
 		switch o.K {
@@ -422,6 +450,12 @@ func (w *world) exec(o *Op) string {
 			err = w.st.DeleteRegion(&metapb.Region{Id: o.ID})
 		}
 		w.base.armed = 0 // region-storage mode: the call did not touch Storage.Base
+		if o.K == "delstoref" && !o.Ap && err != nil && before.found {
+			if after := w.storeRec(o.ID); after != before {
+				o.GoViol = fmt.Sprintf("store %d saved with leader weight %v region weight %v; DeleteStore returned an error (the removal of the record failed and was not applied: the store is not deleted); a full load now returns it: %v, leader weight %v region weight %v",
+					o.ID, before.lw, before.rw, after.found, after.lw, after.rw)
+			}
+		}
 		if err != nil {
 			return "BErr"
 		}
@@ -839,6 +873,9 @@ func genStores(r *rng.R, k int) Case {
 				lw, rw = int64(r.U64()>>24), int64(r.U64()>>30)
 			}
 			c.Ops = append(c.Ops, Op{K: "saveweight", ID: id, LW: lw, RW: rw})
+			if faulty && r.Pct(10) { // the delete of a store WITH weights fails at its third write
+				c.Ops = append(c.Ops, Op{K: "delstoref", ID: id, Ap: r.Pct(30)})
+			}
 		}
 	}
 	c.Ops = append(c.Ops, Op{K: "loadstores"})
@@ -1175,8 +1212,11 @@ func fixedCases() []Case {
 		slowStore.Ops = append(slowStore.Ops, Op{K: "saveregion", ID: uint64(i*3 + 1), V: &RV{Start: uint64(i+1) * 10, End: uint64(i+2) * 10, ConfVer: 1, Version: 1}})
 	}
 	slowStore.Ops = append(slowStore.Ops, Op{K: "budget", P: int64(200 * proto.Size(slowStore.Ops[0].V.region(1))), Tmo: true}, Op{K: "loadregions"}, Op{K: "loadcache"})
+	// a store with weights whose deletion fails at the removal of the record (not applied): it is not deleted, weights stay
+	delWeighted := Case{Backend: "mem", Ops: []Op{{K: "savestore", ID: 7, P: 1}, {K: "saveweight", ID: 7, LW: 2500, RW: 3500}, {K: "savestore", ID: 9, P: 2},
+		{K: "delstoref", ID: 7, Ap: false}, {K: "loadstores"}, {K: "delstoref", ID: 7, Ap: true}, {K: "loadstores"}}}
 	return []Case{
-		slowStore, lagging, wrap, delBoth, pruneBoth, onceRetry, oncePair, cancelClose, handOver, reelected, flushFault, precise, tick, cif(true), cif(false), faults, raceCase(true), raceCase(false), raceCase(true), raceCase(false),
+		slowStore, lagging, delWeighted, wrap, delBoth, pruneBoth, onceRetry, oncePair, cancelClose, handOver, reelected, flushFault, precise, tick, cif(true), cif(false), faults, raceCase(true), raceCase(false), raceCase(true), raceCase(false),
 		// S9 on the stores namespace and on the regions namespace
 		{Backend: "mem", Ops: []Op{{K: "savestore", ID: 1, P: 1}, {K: "savestore", ID: top, P: 2}, {K: "loadstores"}}},
 		{Backend: "mem", Ops: []Op{{K: "saveregion", ID: 1, V: one}, {K: "saveregion", ID: top, V: two}, {K: "loadregions"}}},
@@ -1742,6 +1782,9 @@ func checkGo(R *res.Result, c Case) {
 	rs, dirty, known := false, false, true
 	for i, o := range c.Ops {
 		ob := c.Obs[i]
+		if o.GoViol != "" {
+			R.Violate("C17:load:store-weight-differs", o.GoViol, Case{Backend: c.Backend, Ops: c.Ops[:i+1]})
+		}
 		switch o.K {
 		case "savestore":
 			wantStores[o.ID] = true
